@@ -133,7 +133,16 @@ func durNs(s string) int64 {
 func protoCfg(n controller.NodeGroupOptions) PGroupCfg {
 	ticks := 0
 	if n.AWS.LaunchTemplateID != "" {
-		ticks = int(n.AWS.FleetInstanceReadyTimeoutDuration() / time.Second)
+		// what the documentation says the option means, not what the accessor returns: a missing value is one minute
+		d := time.Minute
+		if n.AWS.FleetInstanceReadyTimeout != "" {
+			if p, err := time.ParseDuration(n.AWS.FleetInstanceReadyTimeout); err == nil {
+				d = p
+			} else {
+				d = 0
+			}
+		}
+		ticks = int(d / time.Second)
 	}
 	return PGroupCfg{
 		Name: n.Name, LabelKey: n.LabelKey, LabelValue: n.LabelValue, CloudGroup: n.CloudProviderGroupName,
